@@ -111,6 +111,17 @@ let () =
         print_endline (presult_str (parse_config (strict = "1") (schema_of sch) (unhex c)))
       | "NP" :: strict :: sch :: c :: _ ->
         print_endline (if nparse_config (strict = "1") (parse_nested sch) (unhex c) then "accept" else "reject")
+      | "PS" :: strict :: sch :: cs :: _ ->
+        (* one parser object, several texts, no clear in between *)
+        let confs = List.map unhex (String.split_on_char '|' cs) in
+        print_endline (String.concat " " (List.map (fun b -> if b then "accept" else "reject")
+          (pseq (strict = "1") (parse_nested sch) mempty confs)))
+      | "MS" :: strict :: sch :: cs :: _ ->
+        (* the module's parser object over a sequence of read_config_string calls *)
+        let raws = List.map unhex (String.split_on_char '|' cs) in
+        let (st, oks) = mrun (strict = "1") (parse_nested sch) mempty raws in
+        print_endline (String.concat " " (List.map (fun b -> if b then "accept" else "reject") oks)
+                       ^ (if st.ms_regs = [] && st.ms_allowed = [] then " empty" else " dirty"))
       | "SS" :: d :: dl :: _ ->
         (match split_string (unhex d) (unhex dl) with
          | None -> print_endline "outoffuel"
